@@ -123,16 +123,25 @@ func init() {
 			{"check"},
 			{"build", top},
 			{"build", "//..."},
+			// the same walks with filters that most of the graph does not match, and with the platform check bypassed
+			{"rdeps", "-t", "--target-type=test", bottom},
+			{"deps", "-t", "--target-type=test", top},
+			{"rdeps", "-t", "--tag=nobody-has-this-tag", bottom},
+			{"list", "--target-type=test", "//..."},
+			{"changes", "--since=HEAD", "--dependents=transitive", "--target-type=test"},
+			{"--all-platforms", "build", top},
+			{"--all-platforms", "check"},
 		}
 		for _, args := range cmds {
 			rr := box.Run(grog, hist.RunOpts{Args: args, Env: map[string]string{"VERIF_COUNT_BUDGET": fmt.Sprint(budget)}, Ceiling: 120 * time.Second})
-			cmdName := strings.Join(args[:1], " ")
-			if args[0] == "changes" || (len(args) > 1 && args[1] == "-t") {
-				cmdName = strings.Join(args[:2], " ")
-				if args[0] == "changes" {
-					cmdName = "changes " + args[2]
+			// everything but the labels
+			var nameParts []string
+			for _, a := range args {
+				if !strings.HasPrefix(a, "//") && a != "--since=HEAD" && a != "p/base.txt" {
+					nameParts = append(nameParts, a)
 				}
 			}
+			cmdName := strings.Join(nameParts, " ")
 			replay := map[string]any{"workspace": fmt.Sprintf("%s (V=%d, E=%d), git repository with p/base.txt modified", sh.name, v, e), "command": "grog " + strings.Join(args, " "), "budget_function_entries": budget, "exit": rr.Exit, "output_tail": tail(rr.Output, 600)}
 			switch {
 			case strings.Contains(rr.Output, "vcount: budget exceeded"):
